@@ -97,7 +97,28 @@ func checkDiscover(c DiscoverCase) error {
 		if err != nil {
 			return nil // refused: fine
 		}
-		return wellFormed(p, o, fmt.Sprintf("after a successful %s(%q)", c.Method, string(c.Input)))
+		if e := wellFormed(p, o, fmt.Sprintf("after a successful %s(%q)", c.Method, string(c.Input))); e != nil {
+			return e
+		}
+		// the same input decoded into a receiver that already holds another object (every optional metric
+		// defined) must give the same object: a decoder fills its receiver, it does not merge into it
+		for _, r := range gen.Representatives() {
+			if r.Ver != c.Ver {
+				continue
+			}
+			used, perr := p.Parse(r.S)
+			if perr != nil || used == nil {
+				continue
+			}
+			var err2 error
+			if e := adapt.Safe(func() { err2 = decodeInto(ptrOf(used), c.Method, in) }); e != nil {
+				return fmt.Errorf("v%s %s(%q) into a used receiver: %v", p.V.Name, c.Method, string(c.Input), e)
+			}
+			if err2 == nil && !used.Eq(o) {
+				return fmt.Errorf("v%s %s(%q) gives state %s on a fresh receiver and %s on a receiver that held %s", p.V.Name, c.Method, string(c.Input), o.State(), used.State(), r.S)
+			}
+		}
+		return nil
 	}
 	// after scribbling over an accessor's result every representative vector must still read back as written
 	for _, r := range gen.Representatives() {
@@ -116,6 +137,28 @@ func checkDiscover(c DiscoverCase) error {
 		}
 	}
 	return nil
+}
+
+func decodeInto(ptr any, method string, in []byte) error {
+	switch method {
+	case "UnmarshalBinary":
+		if u, ok := ptr.(encoding.BinaryUnmarshaler); ok {
+			return u.UnmarshalBinary(in)
+		}
+	case "UnmarshalText":
+		if u, ok := ptr.(encoding.TextUnmarshaler); ok {
+			return u.UnmarshalText(in)
+		}
+	case "UnmarshalJSON":
+		if u, ok := ptr.(json.Unmarshaler); ok {
+			return u.UnmarshalJSON(in)
+		}
+	case "GobDecode":
+		if u, ok := ptr.(gobDecoder); ok {
+			return u.GobDecode(in)
+		}
+	}
+	return fmt.Errorf("not implemented")
 }
 
 func knownDecoder(m string) bool {
@@ -193,6 +236,7 @@ func discoverCases() (cases []DiscoverCase, found []string) {
 				case "UnmarshalText":
 					if m, ok := op.(encoding.TextMarshaler); ok {
 						b, _ = m.MarshalText()
+						seeds = append(seeds, []byte(r.S))
 					} else {
 						b = []byte(r.S)
 					}
